@@ -17,8 +17,9 @@
 //!                           g.run(vec![x,y]) and g.run2(x,y) vs run(vec![x,y,z]).
 //!       (For Func::Builtin these dispatch straight to Builtin::run / run1 / run2.)
 //!       Outcomes are compared as canonical value + captured output, or "raised"; two function results
-//!       are compared by applying both to the probe tuples. Panics, fuel exhaustion and control-flow
-//!       signals are recorded and skipped (they are C14's business). When one call exceeds limit_ms a
+//!       are compared by applying both to the probe tuples. A panic on one side against a VALUE on the other
+//!       is a difference; panics on both sides (or panic vs raised) count as "both fail"; fuel exhaustion and
+//!       control-flow signals are recorded and skipped. That a call panics at all is C14's business. When one call exceeds limit_ms a
 //!       watchdog prints the partial result with "hang_at" and exits with code 97.
 //! Arguments are evaluated afresh from their source for every single call, so they are uniquely owned
 //! exactly as in `f(<literal>, <literal>)`.
@@ -265,7 +266,20 @@ fn show(o: &Out) -> String {
 
 /// Some(true) equal, Some(false) different, None not comparable (a panic / fuel / signal on one side)
 fn same(p: &Pool, a: &Out, b: &Out, probes: &[Vec<usize>], fuel: i64, calls: &mut u64, why: &mut String) -> Result<Option<bool>, String> {
+    let is_panic = |o: &Out| matches!(o, Out::Skip(s) if s.starts_with("panic"));
     match (a, b) {
+        // a panic on one side while the other side returns a VALUE is a disagreement between entry points
+        // (both failing - panic, or panic vs raised - is "all fail"; that a call panics at all is C14's business)
+        (x, Out::Val(..)) if is_panic(x) => {
+            *why = "one entry point panics, the other returns a value".to_string();
+            Ok(Some(false))
+        }
+        (Out::Val(..), y) if is_panic(y) => {
+            *why = "one entry point panics, the other returns a value".to_string();
+            Ok(Some(false))
+        }
+        (x, y) if is_panic(x) && (is_panic(y) || matches!(y, Out::Raised(_))) => Ok(Some(true)),
+        (x, y) if is_panic(y) && matches!(x, Out::Raised(_)) => Ok(Some(true)),
         (Out::Skip(_), _) | (_, Out::Skip(_)) => Ok(None),
         (Out::Raised(o1), Out::Raised(o2)) => Ok(Some(o1 == o2)),
         (Out::Val(c1, o1, f1), Out::Val(c2, o2, f2)) => {
